@@ -27,6 +27,7 @@ func die(format string, a ...any) {
 
 func main() {
 	repo := flag.String("repo", "/repo", "repository working tree")
+	srcTree := flag.String("src", "", "development aid: read the library sources from this tree (a scratch worktree) instead of -repo, still overlaying them onto -repo's paths; the registered checks never set it")
 	verif := flag.String("verif", "/verif", "verification directory")
 	out := flag.String("out", "", "scratch output directory (must exist)")
 	nosteps := flag.Bool("nosteps", false, "socket and mutex rewrites only")
@@ -40,8 +41,13 @@ func main() {
 	overlay := map[string]string{}
 	var unsim, syncRet []string
 	total := instrument.Result{}
+	if *srcTree == "" {
+		*srcTree = *repo
+	}
+	isSim := map[string]bool{}
 	for _, pkg := range pkgs {
-		dir := filepath.Join(*repo, pkg)
+		isSim[pkg] = true
+		dir := filepath.Join(*srcTree, pkg)
 		ents, err := os.ReadDir(dir)
 		if err != nil {
 			die("read %s: %v", dir, err)
@@ -51,11 +57,11 @@ func main() {
 			if e.IsDir() || !strings.HasSuffix(name, ".go") || strings.HasSuffix(name, "_test.go") {
 				continue
 			}
-			path := filepath.Join(dir, name)
-			src, err := os.ReadFile(path)
+			src, err := os.ReadFile(filepath.Join(dir, name))
 			if err != nil {
 				die("%v", err)
 			}
+			path := filepath.Join(*repo, pkg, name)
 			short := filepath.Join(filepath.Base(pkg), name)
 			if strings.HasPrefix(pkg, "cmd/") {
 				short = filepath.Join("cmd", filepath.Base(pkg), name)
@@ -98,6 +104,27 @@ func main() {
 			if *verbose {
 				fmt.Fprintf(os.Stderr, "simbuild: %s steps=%d syncs=%d rewrites=%d\n", short, res.Steps, res.Syncs, res.Rewrites)
 			}
+		}
+	}
+	if *srcTree != *repo {
+		// other packages of the scratch tree: overlay the files that differ
+		for _, top := range []string{"pkg", "cmd"} {
+			filepath.Walk(filepath.Join(*srcTree, top), func(p string, info os.FileInfo, err error) error {
+				if err != nil || info.IsDir() || !strings.HasSuffix(p, ".go") || strings.HasSuffix(p, "_test.go") {
+					return nil
+				}
+				rel, _ := filepath.Rel(*srcTree, p)
+				if isSim[filepath.Dir(rel)] {
+					return nil
+				}
+				a, _ := os.ReadFile(p)
+				b, err := os.ReadFile(filepath.Join(*repo, rel))
+				if err != nil || string(a) != string(b) {
+					overlay[filepath.Join(*repo, rel)] = p
+					fmt.Fprintf(os.Stderr, "simbuild: -src: %s differs, overlaid\n", rel)
+				}
+				return nil
+			})
 		}
 	}
 	if len(unsim) > 0 {
